@@ -48,5 +48,9 @@ BstrShapes == {Leaf(<<"cborhex", "42182a">>), Assn(KV(1), Leaf(<<"cborhex", "421
 \* wrapped envelopes next to assertions: wrapped subject, wrapped object
 WrapNodes(B) == {Node(Wrap(s), {a}) : s \in B, a \in AL(B, 3)}
                 \cup {Node(s, {Assn(p, Wrap(o)), a}) : s \in B, p \in B, o \in B, a \in AL(B, 3)}
+\* two assertion elements that are nodes over the SAME inner assertion with different decorations
+\* (e.g. the same assertion salted twice)
+TwinDecorated(B) == {Node(s, {Node(Assn(p, o), {Assn(KV(4), p)}), Node(Assn(p, o), {Assn(KV(4), o)})}) :
+                       s \in B, p \in B, o \in B} \ {Node(s, {Node(Assn(p, p), {Assn(KV(4), p)})}) : s \in B, p \in B}
 ShUpTo(B, n) == IF n = 0 THEN {} ELSE Sh(B, n) \cup ShUpTo(B, n - 1)
 =============================================================================
